@@ -1107,3 +1107,109 @@ func ruleC17Delivered(cx *Ctx) {
 	}
 	cx.R.Check(n >= 1, rule, "cache", "delivering drain found", "-", fmt.Sprintf("%d", n))
 }
+
+// ---------------------------------------------------------------------------------------------------------------
+// X.math: the arithmetic helpers every size / mask computation rests on
+// ---------------------------------------------------------------------------------------------------------------
+
+func ruleXMath(cx *Ctx) {
+	const rule = "C16.math"
+	cx.R.Rule(rule, 3, "xmath.RoundUpPowerOf2 / RoundUpPowerOf264 smear the highest set bit of v-1 over all lower bits (shifts 1, 2, 4, ... up to half the width) and add 1, returning 1 for 0 - every table length, stripe count and queue capacity that is used with a length-1 mask comes from them; xmath.Abs negates exactly the negative arguments")
+	for _, d := range []struct {
+		name   string
+		shifts []uint64
+	}{{"RoundUpPowerOf2", []uint64{1, 2, 4, 8, 16}}, {"RoundUpPowerOf264", []uint64{1, 2, 4, 8, 16, 32}}} {
+		fn := cx.need(rule, "internal/xmath", "", d.name)
+		if fn == nil {
+			continue
+		}
+		// expected: t0 = v-1; t_{k+1} = t_k | (t_k >> s_k); result t_n + 1
+		t := mk("-", tVar("param0"), tConst(1))
+		for _, sft := range d.shifts {
+			t = mk("|", t, mk(">>", t, tConst(sft)))
+		}
+		want := mk("+", t, tConst(1)).String()
+		okMain, okZero, n := false, false, 0
+		allInstrs(fn, func(in ssa.Instruction) {
+			r, ok := in.(*ssa.Return)
+			if !ok || len(r.Results) != 1 {
+				return
+			}
+			n++
+			if c, isC := constUint(r.Results[0]); isC {
+				if c == 1 {
+					for _, g := range guardsAt(r.Block()) {
+						if x, k, isEq, okc := eqConst(g.Cond); okc && k == 0 && isEq == g.Truth && paramIndexOf(x) == 0 {
+							okZero = true
+						}
+					}
+				}
+				return
+			}
+			if newTermBuilder().of(r.Results[0]).String() == want {
+				okMain = true
+			}
+		})
+		cx.R.Check(okMain && okZero && n == 2, rule, "xmath."+d.name, "bit smear + 1, and 1 for 0", cx.P.Pos(fn.Pos()), "the result is the next power of two >= v")
+	}
+	if fn := cx.need(rule, "internal/xmath", "", "Abs"); fn != nil {
+		okNeg, okPos, n := false, false, 0
+		allInstrs(fn, func(in ssa.Instruction) {
+			r, ok := in.(*ssa.Return)
+			if !ok || len(r.Results) != 1 {
+				return
+			}
+			n++
+			neg := func(gs []Guard) (bool, bool) { // (guard found, argument known negative)
+				for _, g := range gs {
+					if b, isB := g.Cond.(*ssa.BinOp); isB && paramIndexOf(b.X) == 0 {
+						if k, isK := constInt(b.Y); isK && k == 0 {
+							switch b.Op.String() {
+							case "<":
+								return true, g.Truth
+							case ">=":
+								return true, !g.Truth
+							}
+						}
+					}
+				}
+				return false, false
+			}
+			found, isNeg := neg(guardsAt(r.Block()))
+			if u, isU := r.Results[0].(*ssa.UnOp); isU && u.Op.String() == "-" && paramIndexOf(u.X) == 0 {
+				okNeg = found && isNeg
+			} else if paramIndexOf(r.Results[0]) == 0 {
+				okPos = found && !isNeg
+			}
+		})
+		cx.R.Check(okNeg && okPos && n == 2, rule, "xmath.Abs", "-a exactly for a < 0", cx.P.Pos(fn.Pos()), "the absolute value negates the negative arguments and only those")
+	}
+}
+
+// ---------------------------------------------------------------------------------------------------------------
+// C18.handoff: the window's candidate is the one that contests the main space
+// ---------------------------------------------------------------------------------------------------------------
+
+func ruleC18Handoff(cx *Ctx) {
+	const rule = "C18.handoff"
+	cx.R.Rule(rule, 1, "evictNodes hands the candidate evictFromWindow returned to evictFromMain, together with the eviction callback it was given: the entries that left the window are the ones the admission contest is about")
+	fn := cx.need(rule, "", "policy", "evictNodes")
+	efw := cx.need(rule, "", "policy", "evictFromWindow")
+	efm := cx.need(rule, "", "policy", "evictFromMain")
+	if fn == nil || efw == nil || efm == nil {
+		return
+	}
+	ok := false
+	allInstrs(fn, func(in ssa.Instruction) {
+		if !isCallTo(in, efm) {
+			return
+		}
+		a := callArgs(in)
+		if len(a) >= 2 {
+			if c, isC := a[0].(*ssa.Call); isC && isCallTo(c, efw) && paramIndexOf(a[1]) == 1 {
+				ok = true
+			}
+		}
+	})
+	cx.R.Check(ok, rule, funcName(fn), "candidate and callback handed on", cx.P.Pos(fn.Pos()), "evictFromMain(evictFromWindow(), evictNode)")
+}
